@@ -239,6 +239,11 @@ func (tc *termCtx) consumesEveryCycle(li *loopInfo) bool {
 			if !li.Blocks[s] || adv[s] {
 				continue
 			}
+			// the back edge of a range loop nested in this loop: going round it is finite, it is not a cycle of
+			// the outer loop
+			if s != li.Head && (strings.HasPrefix(s.Comment, "rangeindex.loop") || strings.HasPrefix(s.Comment, "rangeiter.loop")) && s.Dominates(b) {
+				continue
+			}
 			if color[s] == 1 {
 				cyc = true
 			} else if color[s] == 0 {
